@@ -114,3 +114,26 @@ theorem enc_verdicts (q : Nat → Nat) (st : EncSt) (hst : st ≠ some []) (w : 
         exact ⟨trivial, by omega⟩
 
 end RR.Au
+
+namespace RR.Blk
+
+/-- when the copy loop did not fill the output it took the whole window -/
+theorem resLoop_taken (I D : Int) (olen : Nat) (w : List Nat) : ∀ (c : Int) (taken : Nat) (out : List Nat),
+    (resLoop I D olen w c taken out).2.2.2 = false → (resLoop I D olen w c taken out).2.1 = taken + w.length := by
+  induction w with
+  | nil => intro c taken out _; simp [resLoop]
+  | cons s rest ih =>
+    intro c taken out h
+    simp only [resLoop] at h ⊢
+    generalize emitCopies D olen s ((c + I).toNat + 1) (c + I) out = E at h ⊢
+    obtain ⟨c2, out2, full⟩ := E
+    cases full with
+    | true =>
+      simp only [if_true] at h
+      split at h <;> simp at h
+    | false =>
+      simp only [Bool.false_eq_true, if_false] at h ⊢
+      rw [ih c2 (taken + 1) out2 h]
+      simp only [List.length_cons]; omega
+
+end RR.Blk
